@@ -42,6 +42,7 @@ func runSignHistory(t *testing.T, run *emit.Run, r *rand.Rand, replay []sOp, rNQ
 	}
 	e := newIDEnv(t, nq)
 	live := map[uint64]*tracked{}
+	seenID := map[uint64]bool{}
 	var order []uint64
 	var hist []sOp
 	val := sdk.ValAddress(bytes.Repeat([]byte{7}, 20))
@@ -78,7 +79,7 @@ func runSignHistory(t *testing.T, run *emit.Run, r *rand.Rand, replay []sOp, rNQ
 				stored[m.GetId()] = b
 				tr := live[m.GetId()]
 				if tr == nil || tr.q != q {
-					t.Fatalf("harness lost track of message %d in queue %d", m.GetId(), q)
+					t.Fatalf("harness lost track of message %d in queue %d", m.GetId(), q) // unreachable: a re-issued id ends the history at the Put
 				}
 				// the stored message is the harness's item: its bytes are the hash of the independently rebuilt pre-image
 				_, outer, err := tr.it.preimages()
@@ -174,6 +175,11 @@ func runSignHistory(t *testing.T, run *emit.Run, r *rand.Rand, replay []sOp, rNQ
 				t.Fatal(err)
 			}
 			it.ID = id
+			if seenID[id] {
+				viol("C05:msg-id-reused", fmt.Sprintf("Put on queue %d returned id %d which had been handed out before", o.Q, id))
+				return // the harness tracks messages by id: the history ends here
+			}
+			seenID[id] = true
 			live[id] = &tracked{o.Q, it}
 			order = append(order, id)
 		case "replace":
